@@ -4,7 +4,7 @@ The verified text is a mechanical slice of the real function, re-read on every
 run: every statement from `memory = simulator.memory` to the end, except the
 progress-message `if` (it only calls write_line / get_text and assigns `name`,
 which nothing else reads).  The block-selection preamble (while ... next_block)
-is not part of the slice.
+is a second slice with its own contract (check_block_selection, end of file).
 
 Contract (48K flat memory; block = data_block.data of any length n >= 2,
 ix/de/a/SP taken from the registers):
@@ -211,7 +211,7 @@ def check_fast_load(rep, prop):
     vc = FuncVC(rep, prop, LT.LoadTracer.fast_load, name, eng, pre=lambda p: simvc.wf_pre(p.regs0))
     vc.run(start, post, replay_fast_load)
     rep.notes.append('fast_load slice: statements from `memory = simulator.memory` to the end; dropped: the progress-message if-statement at line(s) %s of the function (calls write_line only)' % dropped)
-    rep.assume('fast_load: block selection (while ... next_block) and 128K paged memory are outside the slice; the paged Memory.__setitem__ is proved equal to a flat write of the mapped bank under C08')
+    rep.assume('fast_load: 128K paged memory is outside the slice (the paged Memory.__setitem__ is proved equal to a flat write of the mapped bank under C08); the block-selection preamble is under its own contract (check_block_selection)')
     return vc
 
 
@@ -442,8 +442,10 @@ def _tracer_model(eng, LT, W):
     # the tape as get_edges builds it: edges[0..max_index]; blocks in tape order, each inside the edge list
     B = p.blocks
     nxt = (bi + 1).t
-    p.facts.append(z3.And(B.endF(bi.t) <= mx.t, B.endF(nxt) <= mx.t, B.startF(nxt) <= B.endF(nxt), B.endF(bi.t) < B.startF(nxt),
-                          B.endF(bi.t) >= 0, B.startF(nxt) >= 0))
+    # (a pilotless block that follows at once has start == the previous block's end; when a block follows, at least one
+    # edge follows the current block's last edge - stated as an assumption in the evidence)
+    p.facts.append(z3.And(B.endF(bi.t) <= mx.t, B.endF(nxt) <= mx.t, B.startF(nxt) <= B.endF(nxt), B.endF(bi.t) <= B.startF(nxt),
+                          B.endF(bi.t) + 1 <= mx.t, B.endF(bi.t) >= 0, B.startF(nxt) >= 0))
     p.edges = SymMem('edges', size=mx + 1)
     me.attrs.update({'state': p.state, 'blocks': p.blocks, 'block_index': bi, 'block_data_index': bdi, 'max_index': mx, 'edges': p.edges,
                      'pause': SB(z3.Bool('pause')), 'keys': UNK})
@@ -575,7 +577,7 @@ def check_block_selection(rep, prop):
     FuncVC(rep, prop, nb, name2, eng2).run(start2, post2, replay_block_selection)
     check_selection_state_frame(rep, prop)
     rep.assume('block selection: the C tape loop (c/csimulator.c) reads tracer_state[3] and never writes it (text search of the C source; the C side is otherwise covered by the bounded option differential only)')
-    rep.assume('block selection: get_edges gives start(b) > end(b-1) and end(b) <= max_index (the blocks lie one after the other inside the edge list) - observed in the bounded runs')
+    rep.assume('block selection: get_edges gives end(b-1) <= start(b) <= end(b) <= max_index (the blocks lie one after the other inside the edge list; C11 proves the index ranges ordered) and, when a block follows, at least one edge after the current block\'s last edge (a following block with data has edges) - the latter observed in the bounded runs only')
 
 
 def check_selection_state_frame(rep, prop):
@@ -662,8 +664,8 @@ def concrete_selection(trials=3000):
         blocks = []
         e = -1
         for b in range(n):
-            st = e + 1 + rnd.choice((0, 0, 1, 2, 5))
-            e = st + rnd.randrange(0, 6)
+            st = max(0, e) + rnd.choice((0, 0, 1, 2, 5))       # a pilotless block starts on the previous block's last edge
+            e = st + rnd.randrange(1, 6)
             blocks.append(Blk(st, e))
         mx = e + rnd.choice((0, 0, 1))
         edges = [100 * i for i in range(mx + 1)]
